@@ -130,7 +130,16 @@ def b_cmp(op, a, b):
         ka, kb = vkey(a), vkey(b)
         if ka == kb and op in ('==', '!='):
             return b_const(op == '==')
-    # canonical orientation: '>' and '>=' are rewritten to '<' / '<='
+    # canonical orientation: '>' and '>=' are rewritten to '<' / '<='; '=='/'!=' are symmetric: constants go right,
+    # otherwise operands are ordered by their printed form
+    if op in ('==', '!='):
+        ca = isinstance(a, RF) and a.is_const()
+        cb = isinstance(b, RF) and b.is_const()
+        try:
+            if (ca and not cb) or (not ca and not cb and repr(a) > repr(b)):
+                a, b = b, a
+        except Exception:
+            pass
     if op == '>':
         return B('cmp', '<', b, a)
     if op == '>=':
@@ -408,6 +417,19 @@ def get_index(v, idx, ty=None):
         return ite(v.c, get_index(v.a, idx, ty), get_index(v.b, idx, ty))
     if isinstance(v, Sym) and v.atom.kind == 'app' and v.atom.name == 'from_elem':
         return v.atom.args[0]          # vec![x; n][i] == x
+    if isinstance(v, Sym) and v.atom.kind == 'app' and v.atom.name == 'store' and idx.is_const():
+        # read-over-write on an opaque base with constant indices
+        cur = v
+        while isinstance(cur, Sym) and cur.atom.kind == 'app' and cur.atom.name == 'store':
+            base, j, val = cur.atom.args
+            if isinstance(j, RF) and j.is_const():
+                if j.const_value() == idx.const_value():
+                    return val
+                cur = base
+                continue
+            break
+        if cur is not v:
+            return get_index(cur, idx, ty)
     return mk_sym(nf.app_atom('elem', frozen(v), idx), ty or elem_ty(v))
 
 
@@ -575,7 +597,7 @@ class Interp:
             raise AnalysisIncomplete('arity mismatch calling %s: %d != %d' % (body['path'], len(args), n))
         for i, a in enumerate(args):
             st.cells[i + 1].v = a
-        st.substs = substs
+        st.substs = substs or {}
         self.stack.append(st)
         try:
             rets = []
@@ -750,11 +772,20 @@ class Interp:
         for ex, g, s in exit_states:
             by_exit.setdefault(ex, []).append((g, s))
         exit_states = []
+        single_exit = len(by_exit) == 1
         for ex, lst in by_exit.items():
+            # states leaving through different exit blocks stay distinguishable by the conditions under which they
+            # left (conditions of the last iteration); with a single exit block nothing needs to be remembered
             if len(lst) == 1:
-                exit_states.append((ex, g0, lst[0][1]))
+                exit_states.append((ex, g0 if single_exit else lst[0][0], lst[0][1]))
             else:
-                exit_states.append((ex, g0, self.merge_snaps(lst, len(g0))))
+                cond = FALSE
+                for g, _s in lst:
+                    c = TRUE
+                    for x in g[len(g0):]:
+                        c = b_and(c, x)
+                    cond = b_or(cond, c)
+                exit_states.append((ex, g0 if single_exit else g0 + (cond,), self.merge_snaps(lst, len(g0))))
         # evaluate from each exit to the continuation J (or to stops / function end)
         atJ = []
         for ex, g, s in exit_states:
@@ -1417,7 +1448,16 @@ class Interp:
                 pk = args[1]
                 inner = [pk.fields[i] for i in sorted(pk.fields)] if isinstance(pk, St) else []
                 return self.call_path(fv.path, inner, ret_ty, st, t)
-        # 3. crate-local body
+        # 3. trait method of a type parameter, resolved through the instantiation of the current generic frame
+        rt_ = self.resolve_trait_call(st, t)
+        if rt_ is not None:
+            path, sub = rt_
+            key = strip_generics(path)
+            bs = self.facts.by_path.get(path)
+            if bs and key not in self.no_inline and path not in self.no_inline and len(self.stack) <= self.max_depth and not any(f.body is bs[0] for f in self.stack):
+                v, _ = self.call_body(bs[0], args, sub)
+                return v
+        # 4. crate-local body
         r = self.call_path(callee, args, ret_ty, st, t)
         return r
 
@@ -1427,11 +1467,51 @@ class Interp:
             bs = self.facts.by_path.get(callee)
             if bs and len(self.stack) <= self.max_depth and not any(f.body is bs[0] for f in self.stack):
                 try:
-                    v, _ = self.call_body(bs[0], args)
+                    v, _ = self.call_body(bs[0], args, self.callee_substs(bs[0], st, t))
                     return v
                 except Diverge:
                     raise
         return self.opaque(callee, args, ret_ty, st, t)
+
+    def subst_ty(self, ty, st):
+        """Replace the generic parameters of the current frame by the concrete types it was instantiated with."""
+        sub = getattr(st, 'substs', None) if st is not None else None
+        if not sub or not isinstance(ty, str):
+            return ty
+        for k, v_ in sub.items():
+            ty = _re.sub(r'(?<![A-Za-z0-9_:])%s(?![A-Za-z0-9_])' % _re.escape(k), v_, ty)
+        return ty
+
+    def callee_substs(self, body, st, t):
+        gens = body.get('generics') or []
+        if not gens or t is None:
+            return {}
+        args = t.get('resolved_substs') or t.get('substs') or []
+        args = [self.subst_ty(a, st) for a in args if not str(a).startswith("'")]
+        gens = [g for g in gens if not str(g).startswith("'")]
+        if len(args) != len(gens):
+            return {}
+        return dict(zip(gens, args))
+
+    def resolve_trait_call(self, st, t):
+        """A trait-method call left unresolved in a generic body, resolved with the frame's instantiation."""
+        tr = t.get('trait')
+        if not tr or t.get('resolved') or not getattr(st, 'substs', None):
+            return None
+        subs = t.get('substs') or []
+        if not subs:
+            return None
+        self_ty = self.subst_ty(subs[0], st)
+        if self_ty == subs[0]:
+            return None
+        name = (t.get('callee') or '').rsplit('::', 1)[-1]
+        cand = '<%s as %s>::%s' % (self_ty, tr, name)
+        if cand in self.facts.by_path:
+            return cand, {}
+        blanket = '<T as %s>::%s' % (tr, name)
+        if blanket in self.facts.by_path:
+            return blanket, {'T': self_ty}
+        return None
 
     def call_closure(self, fv, fref, packed, ret_ty):
         path = fv.adt[len('closure:'):]
